@@ -389,3 +389,37 @@ def family_early_result(tier, seed):
             m = {"id": "1.100000001", "event_id": "30000001", "market_type": "WIN", "winners": 1 if len(early) == 1 else 2, "bsp": False, "persistence": True, "runners": runners, "updates": ups}
             out.append({"id": "er%d" % k, "cfg": {}, "markets": [m], "strategies": [{"name": "A", "max_live_trade_count": 1000, "script": {"1.100000001|0|book": acts}}]})
     return out
+
+
+def family_package_voided(tier, seed):
+    """a placement package of several orders one of which completes while the package is in flight: its runner
+    is removed (market still open) before the latency has passed, so the pending order is voided and completed;
+    the other orders - plain, fill-or-kill, different runners, either position in the package - must still be
+    placed with their own instruction"""
+    out = []
+    k = 0
+    for first_removed in (True, False):
+        for second in ("fok_short", "fok_ok", "plain", "sp"):
+            for inplay in (False, True):
+                k += 1
+                def up(pt, removed, version, trd=0.0):
+                    rs = {"11": ["REMOVED" if removed else "ACTIVE", 20.0, None], "12": ["ACTIVE", 40.0, None], "13": ["ACTIVE", 40.0, None]}
+                    books = {"12": _bk([[5.0, 2.0], [4.8, 10.0]], [[5.2, 10.0]], [[5.0, trd]]), "13": _bk([[3.0, 10.0]], [[3.2, 10.0]], [])}
+                    if not removed:
+                        books["11"] = _bk([[2.0, 10.0]], [[2.2, 10.0]], [])
+                    return {"pt": pt, "status": "OPEN", "version": version, "inplay": inplay, "bet_delay": 1 if inplay else 0, "rstat": rs, "books": books}
+                lat = 1120 if inplay else 120
+                ups = [up(0, False, 1), up(lat - 20, True, 2), up(lat + 80, True, 2), up(lat + 2000, True, 2, 40.0), up(lat + 3000, True, 2, 40.0)]
+                a1 = {"op": "place", "o": "v1", "t": "tv1", "sel": 11, "side": "BACK", "price": 2.2, "size": 2.0}
+                if second == "sp":
+                    a2 = {"op": "place", "o": "v2", "t": "tv2", "sel": 12, "side": "BACK", "type": "LIMIT_ON_CLOSE", "price": 1.5, "size": 10.0}
+                else:
+                    a2 = {"op": "place", "o": "v2", "t": "tv2", "sel": 12, "side": "BACK", "price": 5.0, "size": {"fok_short": 10.0, "fok_ok": 2.0, "plain": 10.0}[second]}
+                    if second.startswith("fok"):
+                        a2["tif"] = "FILL_OR_KILL"
+                a3 = {"op": "place", "o": "v3", "t": "tv3", "sel": 13, "side": "LAY", "price": 3.2, "size": 3.0}
+                acts = [a1, a2, a3] if first_removed else [a2, a1, a3]
+                m = {"id": "1.100000001", "event_id": "30000001", "market_type": "WIN", "winners": 1, "bsp": True, "persistence": True, "runners": [11, 12, 13], "updates": ups}
+                out.append({"id": "pv%d" % k, "cfg": {}, "markets": [m],
+                            "strategies": [{"name": "A", "max_live_trade_count": 1000, "script": {"1.100000001|0|book": [{"op": "txn", "actions": acts}]}}]})
+    return out
